@@ -380,6 +380,12 @@ def edge_models() -> Iterator[Tuple[str, str]]:
     empty_enum = 'class Kind(Enum):\n    """Represent a kind."""\n\n\n'
     yield "edge-enum-without-literals-used", HEADER_MM + empty_enum + _cls("Thing", [("kind", "Optional[Kind]")])
     yield "edge-enum-without-literals-unused", HEADER_MM + empty_enum + _cls("Thing", [("val", "str")])
+    # -- enumeration values outside ASCII (former finding C02-F2: the narrow C++ literal asserted ASCII): 2-, 3- and
+    #    4-byte UTF-8 sequences, each followed by a digit that an open-ended escape would swallow
+    non_ascii_enum = (
+        'class Kind(Enum):\n    """Represent a kind."""\n\n    First = "\u00e41"\n    Second = "\u20aca"\n    Third = "\U0001f600f"\n\n\n'
+    )
+    yield "edge-enum-values-non-ascii", HEADER_MM + non_ascii_enum + _cls("Thing", [("kind", "Kind")])
     # -- constructors: no argument but a call to the constructor of the parent; one argument passed on; two arguments
     yield (
         "edge-constructor-shapes",
